@@ -5,6 +5,7 @@ import (
 	"bytes"
 	"fmt"
 	"io"
+	"os"
 	"strings"
 	"testing"
 
@@ -325,6 +326,7 @@ func (tg *target) run(b []byte) outcome {
 	var out outcome
 	var sweep func()
 	out.phase = "decode"
+	inflight(tg.name, b)
 	guard.Watch("c02-"+strings.ReplaceAll(tg.name, "/", "_"), b, guard.HangLimit(len(b)), func() {
 		out.alloc = guard.Alloc(func() {
 			out.panic = guard.Try(func() {
@@ -359,3 +361,20 @@ func (tg *target) verdict(b []byte, o outcome) error {
 	}
 	return nil
 }
+
+// inflight records the input that is about to be decoded, so that the driver
+// can re-run it alone if the process is killed by an allocation failure
+// (file format: target name, newline, bytes - the same as TestC02Replay reads).
+func inflight(name string, b []byte) {
+	dir := os.Getenv("VERIF_REPLAY_OUT")
+	if dir == "" || len(b) > 1<<20 {
+		return
+	}
+	if !inflightDirMade {
+		os.MkdirAll(dir, 0o755)
+		inflightDirMade = true
+	}
+	os.WriteFile(dir+"/inflight-oom.bin", append([]byte(name+"\n"), b...), 0o644)
+}
+
+var inflightDirMade bool
